@@ -105,7 +105,7 @@ class C18(object):
     time_keys = {"load_checked": "loads compared with the model", "save_ack": "acknowledged saves"}
     fault_keys = ["fault_fired", "fault_configured", "save_refused", "load_of_unacknowledged"]
     tiers = {"quick": {"runs": 8000, "budget_s": 60, "selftest_every": 50, "fresh_selftest": 8},
-             "thorough": {"runs": 800000, "budget_s": 800, "selftest_every": 500, "fresh_selftest": 16}}
+             "thorough": {"runs": 2500000, "budget_s": 800, "selftest_every": 500, "fresh_selftest": 16}}
     rule = ("one run = a history of 2..14 save/load/re-save operations over 1..3 slots of one format family (text "
             "columnfile | hdf columnfile | parameters | grains text | grains hdf | ubi | sparse frame hdf), every load "
             "re-reading from disk; half of the text-writer histories inject a write error into the k-th write(); "
